@@ -473,6 +473,7 @@ type MemDB struct {
 	ChainL [][]*x509.Certificate
 	// failure injection: the n-th SignedTRC call (1-based) fails; Chains / InsertChain fail
 	FailTRCCall  map[int]bool
+	FailAllTRC   bool
 	FailChains   bool
 	FailInsert   bool
 	trcCalls     int
@@ -487,7 +488,7 @@ func trcNewer(a, b cppki.TRCID) bool {
 
 func (d *MemDB) SignedTRC(_ context.Context, id cppki.TRCID) (cppki.SignedTRC, error) {
 	d.trcCalls++
-	if d.FailTRCCall[d.trcCalls] {
+	if d.FailAllTRC || d.FailTRCCall[d.trcCalls] {
 		return cppki.SignedTRC{}, ErrDB
 	}
 	if id.Base.IsLatest() != id.Serial.IsLatest() {
@@ -554,6 +555,12 @@ func (d *MemDB) Chains(_ context.Context, q trust.ChainQuery) ([][]*x509.Certifi
 func (d *MemDB) InsertChain(_ context.Context, ch []*x509.Certificate) (bool, error) {
 	if d.FailInsert {
 		return false, ErrDB
+	}
+	for _, have := range d.ChainL { // same chain already stored: not inserted again
+		if len(have) == len(ch) && len(ch) == 2 && have[0] != nil && ch[0] != nil && have[1] != nil && ch[1] != nil &&
+			bytes.Equal(have[0].Raw, ch[0].Raw) && bytes.Equal(have[1].Raw, ch[1].Raw) {
+			return false, nil
+		}
 	}
 	d.Inserted = append(d.Inserted, ch)
 	d.ChainL = append(d.ChainL, ch)
